@@ -139,6 +139,13 @@ def run(tier):
                 if inband and inband[0] > 0 and not (z1 <= t1 * (1 + 1e-12) and 1.0 / inband[-1] * (1 - 1e-12) <= z1 and t1 <= 1.0 / inband[0] * (1 + 1e-12)):
                     chk.violation("law:period-bounds", "Tm02 <= Tm01 within [1/f_last, 1/f_first] violated", dict(ctx, tm01=t1, tm02=z1))
 
+        # histories of one object: TLC behaviours of SpectrumSession.tla replayed (queries interleaved with in-place changes) ----
+        sessions = sc.tlc_sessions(chk, quick, chk.seed)
+        nrep, nq = sc.session_replay(chk, sessions, rng, "moments")
+        chk.add("spec_traces_replayed", nrep)
+        chk.set("session_queries_compared", nq)
+        evals += nq
+
         # code -> spec: random larger integer spectra validated by TLC -------------------------------------------
         path = os.path.join(work, "c01.ndjson")
         recs = {}
